@@ -359,16 +359,12 @@ class UsertypeFluentsWalker(walkers.dag.DagWalker):
 
         if l_var is not None:
             assert l_fluent is not None
-            l_vars = {l_var}
-            l_vars.update(l_vars)
-            l_fluents = {l_fluent}
-            l_fluents.update(l_fluents)
+            l_vars = l_vars | {l_var}
+            l_fluents = l_fluents | {l_fluent}
         if r_var is not None:
             assert r_fluent is not None
-            r_vars = {r_var}
-            r_vars.update(r_vars)
-            r_fluents = {r_fluent}
-            r_fluents.update(r_fluents)
+            r_vars = r_vars | {r_var}
+            r_fluents = r_fluents | {r_fluent}
 
         if not l_vars and not r_vars:
             assert not l_fluents and not r_fluents
